@@ -24,14 +24,14 @@ PROPS = ("C01", "C02", "C03", "C07", "C18")
 _ctx = {}
 
 
-def nest(flat):
+def nest(flat, raw=False):
     """flat node table from TLC -> list of nested top-level nodes in the impl projection's shape"""
     nodes = []
     for name, par, role, args, blk in flat:
         tags = {}
         pos = []
         for tag, val in args:
-            v = conv_val(val)
+            v = conv_val(val, raw)
             if tag == "":
                 pos.append(v)
             else:
@@ -48,13 +48,14 @@ def nest(flat):
     return top
 
 
-def conv_val(val):
+def conv_val(val, raw=False):
+    c = (lambda x: x) if raw else R.content_of
     if not val:
         return None
     if val[0] == "l":
-        return ["l", [[k, R.content_of(x)] for k, x in val[1]]]
+        return ["l", [[k, c(x)] for k, x in val[1]]]
     if val[0] in ("s", "m"):
-        return [val[0], R.content_of(val[1])]
+        return [val[0], c(val[1])]
     return [val[0], val[1]]
 
 
@@ -72,7 +73,7 @@ def pos_of(spans, data, idx):
     return (data.count(b"\n") + 1, off - data.rfind(b"\n"), 0)
 
 
-def path_matches(q, o, spans, data, ntok):
+def path_matches(q, o, spans, data, ntok, raw=False):
     devs, v, why, warg, bad, irr, tree, loaded = q
     if v in ("exc",):
         return o["cls"] == "raise"
@@ -85,7 +86,7 @@ def path_matches(q, o, spans, data, ntok):
             return False
         if "repeatedTag" in irr:
             return True
-        return loosen(o["tree"]) == loosen(nest(tree))
+        return loosen(o["tree"]) == loosen(nest(tree, raw))
     if v in ("rej", "rejlate"):
         if o["verdict"] is not False:
             return False
@@ -93,6 +94,8 @@ def path_matches(q, o, spans, data, ntok):
         if not (isinstance(ep, tuple) and len(ep) == 3):
             return False
         want = pos_of(spans, data, bad)
+        if why == "lexical":
+            return (ep[0], ep[1]) == (want[0], want[1])
         if why in EXACT:
             return tuple(ep) == want
         return (ep[0], ep[1]) >= (want[0], want[1])
@@ -100,16 +103,21 @@ def path_matches(q, o, spans, data, ntok):
 
 
 def judge(tokens, outs, layout, suffix, p, nrunning):
-    """-> list of (prop, status, detail) with status in ok/known/viol/dc; plus observation"""
+    """render + parse + judge_obs"""
     from . import sieve_impl as I
     data, spans = R.render(tokens, layout, suffix)
     o = I.run_parse(p, data)
+    failed = judge_obs(o, data, spans, len(tokens), outs)
+    return failed, o, data, spans
+
+
+def judge_obs(o, data, spans, ntok, outs, lexnote=(), raw=False):
+    """-> {prop: detail} for every property judgement that fails against the reference path"""
     ref = [q for q in outs if not q[0]]
     assert len(ref) == 1, outs
     ref = ref[0]
     devs, v, why, warg, bad, irr, tree, loaded = ref
     res = {}
-    ntok = len(tokens)
     nlf = data.count(b"\n")
     # ---- C02: totality and shape
     c02 = None
@@ -136,7 +144,7 @@ def judge(tokens, outs, layout, suffix, p, nrunning):
     # ---- C03: tree
     if o["cls"] == "ret" and o["verdict"] is True and "repeatedTag" not in irr:
         if v == "acc":
-            if loosen(o["tree"]) != loosen(nest(tree)):
+            if loosen(o["tree"]) != loosen(nest(tree, raw)):
                 res["C03"] = "tree differs"
         else:
             res["C03"] = "accepted a script the reference rejects (%s): tree unexplained" % why
@@ -153,16 +161,21 @@ def judge(tokens, outs, layout, suffix, p, nrunning):
         want = pos_of(spans, data, bad)
         if isinstance(ep, tuple) and len(ep) == 3:
             m = re.match(r"line (\d+): ", o["error"] or "")
-            if why in EXACT:
+            if why == "lexical":
+                if (ep[0], ep[1]) != want[:2] or not m or int(m.group(1)) != want[0]:
+                    res["C18"] = "%s: want %r got %r" % (why, want[:2], ep)
+            elif why in EXACT:
                 if (ep[0], ep[1], ep[2]) != want or not m or int(m.group(1)) != want[0]:
                     res["C18"] = "%s: want %r got %r" % (why, want, ep)
             elif (ep[0], ep[1]) < (want[0], want[1]):
                 res["C18"] = "%s: reported %r before first invalid token at %r" % (why, ep, want)
     failed = {k: d for k, d in res.items() if d}
-    return failed, o, data, spans
+    if lexnote:          # outside the exercised lexical alphabet: only totality is judged
+        failed = {k: d for k, d in failed.items() if k == "C02"}
+    return failed
 
 
-def explain(outs, o, spans, data, failed):
+def explain(outs, o, spans, data, failed, raw=False):
     """smallest deviation set whose path predicts the observation (None if there is none).
     A position that depends on the suffix can only be explained by a `rejlate' path."""
     expl = None
@@ -172,7 +185,7 @@ def explain(outs, o, spans, data, failed):
             continue
         if suffixdep and q[1] != "rejlate":
             continue
-        if path_matches(q, o, spans, data, 0):
+        if path_matches(q, o, spans, data, 0, raw):
             if expl is None or len(q[0]) < len(expl):
                 expl = q[0]
     return expl
